@@ -77,6 +77,9 @@ def run_property(prop: str, root: str, tier: str, seed: int, evidence_dir=None, 
         n = sum(1 for o in obs.items if o.rule == rule and o.verdict in (DISCHARGED, VIOLATED))
         if n < fl:
             raise AnalysisError(f'{prop}: rule {rule} decided {n} instances, floor is {fl}')
+    for key, fl in getattr(mod, 'ANALYSED_FLOORS', {}).items():
+        if int(obs.analysed.get(key, 0)) < fl:
+            raise AnalysisError(f'{prop}: analysed[{key}] = {obs.analysed.get(key, 0)}, floor is {fl}')
     known, fixed = load_known()
     known_hits, new_viol = [], []
     for o in obs.items:
